@@ -7,6 +7,8 @@ InToto/Model/Metadata.lean (`canonPayload`, `payloadBytes`).
 -/
 import InToto.Proofs.Json
 import InToto.Model.Metadata
+import InToto.Generated.Facts
+import InToto.Model.SchemaFacts
 
 namespace InToto.C11
 open InToto InToto.Json InToto.JsonProofs InToto.Metadata
@@ -45,5 +47,32 @@ theorem olpc_format_example : renderCanon (.obj [(lit% "b", .str (lit% "q\"\\"))
 /-- the DSSE payload escapes a newline, the canonical form does not (the repaired defect) -/
 theorem payload_escapes_control_example : renderPayload (.str ['a', '\n']) = some (lit% "\"a\\u000a\"") ∧
     renderCanon (.str ['a', '\n']) = some ['"', 'a', '\n', '"'] := by decide
+
+/-! ### facts regenerated from /repo's source on every run (InToto/Generated/Facts.lean) -/
+
+/-- the struct tags (json name, omitempty) and Go field types of the metadata structs in the CURRENT
+    source are the ones the model's schema tables were written for -/
+theorem facts_struct_tags :
+    Generated.structKeyVal = SchemaFacts.expKeyVal ∧ Generated.structKey = SchemaFacts.expKey ∧
+    Generated.structSignature = SchemaFacts.expSignature ∧ Generated.structLink = SchemaFacts.expLink ∧
+    Generated.structInspection = SchemaFacts.expInspection ∧ Generated.structStep = SchemaFacts.expStep ∧
+    Generated.structLayout = SchemaFacts.expLayout ∧
+    Generated.structCertificateConstraint = SchemaFacts.expCertConstraint ∧
+    Generated.structMetablock = SchemaFacts.expMetablock := by
+  refine ⟨?_, ?_, ?_, ?_, ?_, ?_, ?_, ?_, ?_⟩ <;> decide
+
+/-- and those tables are the model's (names and omitempty flags) -/
+theorem facts_schema_is_model : SchemaFacts.namesOf Schema.fieldsLink = SchemaFacts.namesOfExp SchemaFacts.expLink ∧
+    SchemaFacts.namesOf Schema.fieldsLayout = SchemaFacts.namesOfExp SchemaFacts.expLayout ∧
+    SchemaFacts.namesOf Schema.fieldsStep = SchemaFacts.namesOfExp SchemaFacts.expStep ∧
+    SchemaFacts.namesOf Schema.fieldsInspection = SchemaFacts.namesOfExp SchemaFacts.expInspection ∧
+    SchemaFacts.namesOf Schema.fieldsKey = SchemaFacts.namesOfExp SchemaFacts.expKey ∧
+    SchemaFacts.namesOf Schema.fieldsKeyVal = SchemaFacts.namesOfExp SchemaFacts.expKeyVal ∧
+    SchemaFacts.namesOf Schema.fieldsSignature = SchemaFacts.namesOfExp SchemaFacts.expSignature ∧
+    SchemaFacts.namesOf Schema.fieldsCertConstraint = SchemaFacts.namesOfExp SchemaFacts.expCertConstraint := by
+  refine ⟨?_, ?_, ?_, ?_, ?_, ?_, ?_, ?_⟩ <;> decide
+
+/-- the DSSE payload type constant of the source is the one the model uses -/
+theorem facts_payload_type : Generated.constPayloadType = Metadata.payloadTypeConst := by decide
 
 end InToto.C11
